@@ -22,8 +22,8 @@ RULE = (
     "All cases are non-trivial (they evaluate real kernels); distinct = distinct (clause, kernel, nf, z/N)."
 )
 ASSUMPTIONS = [
-    "orders 2 and 3 are Vogt et al. parametrisations: sum rules hold within |M1-target| <= 1.5e-3 * sum|piece moments| "
-    "(measured <=2.4e-4); order 1 is exact (1e-9)",
+    "orders 2 and 3 are Vogt et al. parametrisations: sum rules hold within |M1-target| <= eps * sum|piece moments| with eps = 1e-4 "
+    "(order 2, measured <=2.2e-5), 3e-5 (order 3, measured <=3.8e-6), 1.5e-3 (light-by-light piece, measured 2.3e-4); order 1 is exact (1e-9)",
     "sub-per-mille edits of fitted NNLO/N3LO constants in regular parts are not detectable by these exact constraints",
 ]
 BUDGET = {"quick": {"examples": 4000, "wall": 300}, "thorough": {"examples": 120000, "wall": 2400}}
@@ -243,7 +243,11 @@ def check_case(case):
                 v.label("sumrule:lbl", "kind:F3")
                 got, sc = moment(f3_nc.Valence(FakeESF, nf)[3](), 1.0)
                 exp, what = 64.0 * nf * (30.0 * Z3 / 54.0 - 330.0 / 1296.0), "GLS minus Bjorken: first moment of the light-by-light valence piece"
-            tol = (1e-9 if o == 1 else 1.5e-3) * sc + 1e-12
+            # envelopes per order from the measured accuracy of the parametrisations' first moments (<=2.2e-5 of sum|pieces| at
+            # order 2, <=3.8e-6 at order 3, 2.3e-4 for the light-by-light piece): 1e-4, 3e-5, 1.5e-3. The first version used
+            # 1.5e-3 throughout and missed a swap of the even/odd CC F3 classes at NNLO (2e-4; seeded change C04).
+            rel = 1e-9 if o == 1 else (1.5e-3 if rule == "lbl" else (1e-4 if o == 2 else 3e-5))
+            tol = rel * sc + 1e-12
             v.metric(f"sumrule:o{o}", abs(got - exp) / tol)
             if not abs(got - exp) <= tol:
                 v.fail(f"C04:sumrule:{rule}:{o}", f"{what} at order {o}, nf={nf}: {got!r} != {exp!r} (envelope {tol:.3e})")
